@@ -193,6 +193,54 @@ func (fx *FuncCtx) execNext(st *State, in *ssa.Next) {
 	fx.nextModel(st, in)
 }
 
+// fork/join: `go f(...)` of a function under contract checks f's precondition now and applies f's contract (modifies
+// havocked, postcondition assumed) at the next sync.WaitGroup.Wait of the spawning function.  Trusted: the Add/Done/Wait
+// pairing really makes Wait return after f ended, and the spawning function does not touch f's modifies set in between.
 func (fx *FuncCtx) execGo(st *State, in *ssa.Go) {
-	fx.failf("go statement inside a function under contract")
+	cc := in.Common()
+	if cc.IsInvoke() {
+		fx.failf("go statement on an interface method")
+	}
+	fnv := fx.val(st, cc.Value)
+	callee := cc.StaticCallee()
+	if callee == nil {
+		callee = fnv.Fn
+	}
+	if callee == nil {
+		fx.failf("go statement with an unknown function value")
+	}
+	fc := fx.eng.contractOf(callee)
+	if fc == nil {
+		fx.failf("go %s: the goroutine's function needs a contract", fnKey(callee))
+	}
+	var args []Val
+	for _, a := range cc.Args {
+		args = append(args, fx.val(st, a))
+	}
+	env := fx.calleeEnv(st, callee, fc, fnv, args, st.heap, st.heap)
+	for i, rq := range fc.Requires {
+		label := rq.Name
+		if label == "" {
+			label = fmt.Sprintf("#%d", i+1)
+		}
+		var side []string
+		env.side = &side
+		t := env.boolTerm(rq.E)
+		for _, sd := range side {
+			st.assume(sd)
+		}
+		fx.oblige(st, "pre", "go:"+callee.Name()+"."+label, t, in.Pos(), fc.Key+" requires "+rq.Src)
+	}
+	st.spawned = append(st.spawned, spawnRec{fn: callee, fc: fc, fnv: fnv, args: args})
+	fx.trusted["fork/join: the contract of a goroutine started with `go` is applied at the spawning function's next WaitGroup.Wait (Add/Done pairing and non-interference in between are not checked)"] = true
+}
+
+func (fx *FuncCtx) joinSpawned(st *State, pos token.Pos) {
+	recs := st.spawned
+	st.spawned = nil
+	for _, r := range recs {
+		fx.skipPre = true
+		fx.applyContract(st, r.fn, r.fc, r.fnv, r.args, nil, pos)
+		fx.skipPre = false
+	}
 }
